@@ -18,6 +18,9 @@ func (in *Interp) unop(fr *frame, instr *ssa.UnOp, x Value) Value {
 	tt := in.tt
 	switch instr.Op {
 	case token.MUL: // load
+		if sp, ok := x.(SymPtr); ok {
+			return in.symLoad(sp)
+		}
 		p := asPtr(x)
 		in.checkNilPtr(p)
 		return load(p)
@@ -666,11 +669,7 @@ func (in *Interp) lookup(instr *ssa.Lookup, x, idx Value) Value {
 		}
 		return v
 	case Str:
-		i := in.boundsIndex(idx.(*Term), instr.Index.Type(), x.Len())
-		if x.sym != nil {
-			return x.sym[i]
-		}
-		return in.tt.Const(8, uint64(x.s[i]))
+		return in.strIndex(x, idx.(*Term), instr.Index.Type())
 	case Poison:
 		panic(unsupported("lookup in poisoned map: " + x.why))
 	}
